@@ -12,6 +12,8 @@
 //!   O\t<obligation name>            (driver-side coverage counter, no oracle)
 //! tools/check.py assembles these into the ndjson of runs that TLC reads.
 
+pub mod aln;
+
 use serde_json::{json, Value};
 use std::fs::File;
 use std::io::{BufWriter, Write};
@@ -348,7 +350,7 @@ pub fn run(drive: fn(&mut Log)) {
     let timeout: u64 = std::env::var("VERIF_CALL_TIMEOUT_MS")
         .ok()
         .and_then(|s| s.parse().ok())
-        .unwrap_or(20_000);
+        .unwrap_or(10_000);
     install_guards(timeout, 4 << 30);
     let mut log = Log::new(opts);
     drive(&mut log);
